@@ -59,4 +59,51 @@ def fsMutate (fs : Fs) (p : Nat) (op : Op) : Fs :=
   | .ok s => fs.set p (.file (step s op).1.disk)
   | .error _ => fs
 
+/-! ### long-lived objects
+
+A `Tdf` object remembers only its path between contexts (`file_path`; basictdf.py:158-166). Every
+`__enter__` — explicit, or implicit through `provide_context_if_needed` — opens the path again and
+parses signature, header and table again (basictdf.py:172-196); nothing learnt in an earlier context
+is trusted. Between two contexts anything may happen to the file (`put`, `del`: other programs).
+A refused `__enter__` leaves the object outside any context (handle closed, read-only mode). -/
+
+def Fs.del (fs : Fs) (p : Nat) : Fs := fs.filter (fun e => e.1 != p)
+
+structure World where
+  fs : Fs
+  objs : List (Nat × Nat) := []       -- object id ↦ path
+  deriving Repr
+
+def World.pathOf (w : World) (o : Nat) : Option Nat := (w.objs.find? (fun e => e.1 == o)).map (·.2)
+
+inductive WOp where
+  | put (p : Nat) (b : Bytes)         -- the outside world replaces (or creates) the file at p
+  | del (p : Nat)                     -- … or deletes it
+  | mkdir (p : Nat)
+  | construct (o p : Nat)             -- `o = Tdf(p)`
+  | enter (o : Nat)                   -- `with o:` / any reader that provides its own context; the context is left again
+  | new (p : Nat) (now : Int)
+  | copy (o dst : Nat)                -- `o.copy(dst)`
+  deriving Repr
+
+def World.step (w : World) : WOp → World × FsOut
+  | .put p b => ({ w with fs := (w.fs.del p).set p (.file b) }, .ok)
+  | .del p => ({ w with fs := w.fs.del p }, .ok)
+  | .mkdir p => ({ w with fs := (w.fs.del p).set p .dir }, .ok)
+  | .construct o p =>
+    match w.fs.get p with
+    | none => (w, .notFound)
+    | some _ => ({ w with objs := (o, p) :: w.objs }, .ok)
+  | .enter o =>
+    match w.pathOf o with
+    | none => (w, .notFound)
+    | some p => (w, match fsOpen w.fs p with | .ok _ => .ok | .error e => e)
+  | .new p now => let r := fsNew w.fs p now; ({ w with fs := r.1 }, r.2)
+  | .copy o dst =>
+    match w.pathOf o with
+    | none => (w, .notFound)
+    | some src => let r := fsCopy w.fs src dst; ({ w with fs := r.1 }, r.2)
+
+def World.run (w : World) (ops : List WOp) : World := ops.foldl (fun w op => (w.step op).1) w
+
 end Tdf
